@@ -37,6 +37,9 @@ type FuncSpec struct {
 	Status    int   `json:"status,omitempty"`
 	// Latin1: some results of a "len" function are padded with bytes that are not valid UTF-8
 	Latin1 bool `json:"latin1,omitempty"`
+	// Trans: Kind static - content per language code (a static load: Fixed is the default-language entry); the
+	// DbResource deployment keeps these in the store (DATATYPE_STATICLOAD) instead of registering a function
+	Trans map[string]string `json:"trans,omitempty"`
 }
 
 // FuncResult is what a call returns.
@@ -69,6 +72,11 @@ func (f *FuncSpec) Result(n int, input []byte, lang string) FuncResult {
 		r.Content = fmt.Sprintf("%s#%d", f.Sym, n)
 	case "fixed":
 		r.Content = f.Fixed
+	case "static":
+		r.Content = f.Fixed
+		if t, ok := f.Trans[lang]; ok {
+			r.Content = t
+		}
 	case "rows":
 		r.Content = strings.Join(f.Rows, "\n")
 	case "empty":
